@@ -643,6 +643,9 @@ def _collate(ctx, f, rel):
                 with_ids = _uf(gs, "has_uttids", True)
                 last = n.value.elts[-1]
                 has = isinstance(last, ast.Call) and call_name(last) == "tuple"
+                if not has and isinstance(last, ast.Name):  # (converted to a tuple in a statement of its own)
+                    ds_ = list(rd.defs_of(last))
+                    has = bool(ds_) and all(d.kind == "assign" and isinstance(d.value, ast.Call) and call_name(d.value) == "tuple" for d in ds_)
                 ok = has == with_ids
                 if has:
                     der = rd.derives(last)
